@@ -8,7 +8,7 @@ prop="$1"; patch="$(realpath "$2")"; shift 2
 work="/dev/shm/simgriffe-mut-$$"
 mkdir -p "$work" && rsync -a --exclude __pycache__ /repo/src "$work/" || exit 2
 if ! (cd "$work" && patch -p1 -s --no-backup-if-mismatch < "$patch"); then echo "PATCH-FAILED $patch"; rm -rf "$work"; exit 2; fi
-out="$(cd /verif && VERIF_REPO_SRC="$work/src" ./check "$prop" "$@" 2>&1)"; rc=$?
+out="$(cd /verif && VERIF_EVIDENCE_DIR="$work/evidence" VERIF_REPO_SRC="$work/src" ./check "$prop" "$@" 2>&1)"; rc=$?
 rm -rf "$work"
 echo "$out" | grep -E "^(VIOLATION|violation:|KNOWN|HARNESS|C[0-9]+ )" | head -12
 if [ $rc -eq 1 ]; then echo "CAUGHT $prop $(basename "$patch")"; exit 0; fi
